@@ -83,7 +83,12 @@ def run_shard(prop, tier, seed, shard, nshards, env, outdir, timeout,
                "--seed", str(seed), "--shard", str(shard),
                "--nshards", str(nshards), "--out", out]
         if budget:
-            cmd += ["--budget", str(max(5.0, budget - (time.time() - t0)))]
+            # CPU-second budget; wall-clock watchdog at six times the
+            # budget, at most 60 % of the run's timeout
+            el = time.time() - t0
+            cap = max(budget, min(6.0 * budget, 0.6 * timeout))
+            cmd += ["--budget", str(max(5.0, budget - el)),
+                    "--wallcap", str(max(5.0, cap - el))]
         if only_case is not None:
             cmd += ["--only-case", str(only_case)]
         if resume:
